@@ -30,7 +30,8 @@ static uint64_t get_varuint(
 
   *length = 0;
 
-  while (done == 0)
+  // A 64 bit LEB128 number has at most 10 bytes.
+  while (done == 0 && *length < 10)
   {
     ch = memory->read8(address++);
 
@@ -43,7 +44,7 @@ static uint64_t get_varuint(
 
     ch = ch & 0x7f;
 
-    num |= ch << shift;
+    num |= ((uint64_t)ch) << shift;
     shift += 7;
   }
 
@@ -62,7 +63,8 @@ static int64_t get_varint(
 
   *byte_count = 0;
 
-  while (done == 0)
+  // A 64 bit LEB128 number has at most 10 bytes.
+  while (done == 0 && *byte_count < 10)
   {
     ch = memory->read8(address++);
 
@@ -75,11 +77,11 @@ static int64_t get_varint(
 
     ch = ch & 0x7f;
 
-    num |= ch << shift;
+    num |= ((uint64_t)ch) << shift;
     shift += 7;
   }
 
-  if ((num & (1ULL << (shift - 1))) != 0)
+  if (shift < 64 && (num & (1ULL << (shift - 1))) != 0)
   {
     num |= ~((1ULL << shift) - 1);
   }
